@@ -196,3 +196,10 @@ Print Assumptions C09_leak_local_literal_refuted.
 Theorem C09_leak_reassign_refuted : leaks leak_reassign_setup leak_reassign_body.
 Proof. exact leak_reassign. Qed.
 Print Assumptions C09_leak_reassign_refuted.
+
+(* a = [1]; c = [2]; c = a   while True: c.append(5); a.remove(5)
+   - `c = a` on a declared list is a deep copy in the firmware and an alias in Python: memory-safe, but
+   the firmware heap grows by one cell per pass while Python's live data is constant *)
+Theorem C09_clone_divergence_refuted : grows clone_setup clone_body.
+Proof. exact clone_grows. Qed.
+Print Assumptions C09_clone_divergence_refuted.
